@@ -12,7 +12,7 @@ import random
 import threading
 
 from ..core import Engine, RunResult, HarnessError
-from .. import docgen, sched
+from .. import docgen, sched, shared_state
 from .c11 import RULERS, BLOCK_ALT, _ruler
 
 METHODS = ["render", "render", "parse", "renderInline", "parseInline"]
@@ -24,6 +24,90 @@ REF_NAMES = {"core": ["normalize", "block", "inline", "text_join"],
              "block": ["code", "fence", "blockquote", "hr", "list", "reference", "heading", "lheading", "paragraph"],
              "inline": ["text", "newline", "escape", "backticks", "emphasis", "link", "image", "entity"],
              "inline2": ["balance_pairs", "emphasis", "fragments_join"]}
+
+
+# --------------------------------------------------------------------------- aged instances
+def age_doc(i: int) -> str:
+    """The i-th document an 'aged' instance has processed before the concurrent phase.  Document 0 touches every item of
+    the generator's pools (so that later calls re-use what any memo may hold); the others are all-new content."""
+    if i == 0:
+        out = [" ".join(f"[w{k}]({u})" for k, u in enumerate(docgen.URLS)),
+               " ".join(f"[{lab}] ![i][{lab}]" for lab in docgen.LABELS),
+               " ".join(docgen.ENTITIES + docgen.AUTOLINKS + docgen.HTML_INLINE + docgen.TYPO),
+               " ".join(docgen.WORDS) + " `code` ``a`b`` *e* **s** ~~d~~",
+               "\n".join(f"[{lab}]: /pool/{k} 't'" for k, lab in enumerate(docgen.LABELS))]
+        return "\n\n".join(out) + "\n"
+    return (f"# h{i}\n\n[a{i}](/age/{i} 't{i}') ![b{i}][l{i}] `c{i}` *e{i}* &#{200 + i}; <http://h{i}.x/p> [l{i}] w{i}\n\n"
+            f"> - q{i}\n\n```lang{i}\nx{i}\n```\n\n[l{i}]: /r/{i} 'rt{i}'\n")
+
+
+def _age(md, n: int) -> None:
+    mode = sched._mode
+    sched.set_mode(None)          # ageing is not traced: no monitoring callbacks while it runs
+    try:
+        for i in range(n):
+            md.render(age_doc(i))
+    finally:
+        sched.set_mode(mode)
+
+
+_BOUNDARIES: list[int] | None = None
+GENERIC_AGES = [17, 17, 33, 33, 64, 65, 100, 128, 129, 257]
+DISCOVERY_MAX = 1100
+
+
+def boundaries() -> list[int]:
+    """Ages (number of processed documents) at which some sized shared object SHRANK: the capacity limits of bounded
+    memos, found by watching the instance and the library's module state while ageing - nothing is looked up by name.
+    Empty on a tree that keeps no bounded store (the pinned tree).  Once per process; deterministic."""
+    global _BOUNDARIES
+    if _BOUNDARIES is not None:
+        return _BOUNDARIES
+    mode = sched._mode
+    sched.set_mode(None)
+    try:
+        found: list[int] = []
+        md = docgen.build(BASE_CFG)
+        prev = shared_state.fingerprint(md)
+        prev_i = 0
+        i = 0
+        while i < DISCOVERY_MAX and len(found) < 2:
+            md.render(age_doc(i))
+            i += 1
+            if i <= 300 or i % 8 == 0:
+                cur = shared_state.fingerprint(md)
+                if shared_state.shrunk(prev, cur):
+                    b = i
+                    if i - prev_i > 1:      # refine inside (prev_i, i] on a second instance
+                        md2 = docgen.build(BASE_CFG)
+                        for j in range(prev_i):
+                            md2.render(age_doc(j))
+                        p2 = shared_state.fingerprint(md2)
+                        for j in range(prev_i, i):
+                            md2.render(age_doc(j))
+                            c2 = shared_state.fingerprint(md2)
+                            if shared_state.shrunk(p2, c2):
+                                b = j + 1
+                                break
+                            p2 = c2
+                    found.append(b)
+                prev, prev_i = cur, i
+        _BOUNDARIES = found
+    finally:
+        sched.set_mode(mode)
+    return _BOUNDARIES
+
+
+def resolve_age(spec) -> int:
+    if isinstance(spec, int):
+        return spec
+    bs = boundaries()
+    x = spec["pick"]
+    if bs and x < 0.8:
+        # just below a capacity limit, so that new items arriving during the concurrent phase cross it
+        b = bs[0] if (len(bs) == 1 or x < 0.6) else bs[1]
+        return max(1, b - 1 - int(spec["back"]))
+    return GENERIC_AGES[min(int(x * len(GENERIC_AGES)), len(GENERIC_AGES) - 1)]
 
 
 class _Ctx(threading.local):
@@ -78,6 +162,17 @@ def install_nested(md, where):
             _reenter(md)
             return ""
         md.options["highlight"] = hl
+    elif where[0] == "hook":
+        # the overridable link hooks (md.normalizeLink / validateLink / normalizeLinkText) are user code too
+        orig = getattr(md, where[1])
+
+        def hook(url, _orig=orig):
+            _reenter(md)
+            return _orig(url)
+        try:
+            setattr(md, where[1], hook)
+        except (AttributeError, TypeError):
+            pass      # not assignable on this tree: no re-entry site (the callback count stays 0)
     else:
         key = where[1]
         orig = md.renderer.rules.get(key)
@@ -95,6 +190,8 @@ def build_shared(rec):
     if rec.get("nested"):
         install_nested(md, rec["nested"]["where"])
     st = rec["start"]
+    if st[0] == "aged":
+        _age(md, st[1])
     if st[0] in ("warm", "reconfigured", "options"):
         md.render(WARM_DOC)
     if st[0] == "reconfigured":
@@ -120,6 +217,8 @@ def call_outcome(md, method, doc, envkind):
         v = getattr(md, method)(doc, env) if env is not None else getattr(md, method)(doc)
     except sched.StepBudgetExceeded:
         return ["nonterm"]
+    except sched.SimDeadlock as e:
+        return ["deadlock", str(e)]
     except BaseException as e:  # noqa: BLE001
         return ["exc", type(e).__name__, str(e)[:200]]
     if method in ("parse", "parseInline"):
@@ -130,10 +229,12 @@ def call_outcome(md, method, doc, envkind):
 # --------------------------------------------------------------------------- generation
 def _gen_start(rng):
     r = rng.random()
-    if r < 0.55:
+    if r < 0.5:
         return ["fresh"]
-    if r < 0.7:
+    if r < 0.6:
         return ["warm"]
+    if r < 0.7:
+        return ["aged", {"pick": rng.random(), "back": rng.choice([0, 0, 1, 2, 3])}]
     if r < 0.9:
         pool = ["emphasis", "link", "list", "blockquote", "table", "strikethrough", "backticks", "heading",
                 "replacements", "smartquotes", "html_inline", "image"]
@@ -151,19 +252,44 @@ def _gen_call(rng, small):
     return [m, d, rng.choice(["none", "dict", "dict", "userdict"])]
 
 
+def _aged_fragments(rng, call):
+    """For aged starts: content the instance has seen before (hits of whatever it remembers) and all-new content
+    (misses that make a bounded store evict)."""
+    m = call[0]
+    frag = ""
+    if rng.random() < 0.6:
+        k = rng.randint(1, 15)
+        frag += f" [a{k}](/age/{k} 't{k}') `c{k}` [l{k}] <http://h{k}.x/p>"
+    if rng.random() < 0.6:
+        k = rng.randrange(10 ** 6)
+        frag += f" [n](/nov/{k} 'nt{k}') `nc{k}` <http://nov{k}.x/> &#{300 + k % 500};"
+    if not frag:
+        return
+    if "Inline" in m:
+        call[1] = call[1] + frag
+    else:
+        call[1] = call[1] + "\n\n" + frag.strip() + "\n\n" + "\n".join(f"[l{k}]: /r/{k} 'rt{k}'" for k in range(1, 16, 5)) + "\n"
+
+
 def _gen_nested(rng, threads):
     r = rng.random()
     if r < 0.65:
         which = rng.choice(RULERS)
         where = ["rule", which, rng.choice(["push", "before", "after", "before"]), rng.choice(REF_NAMES[which])]
-    elif r < 0.92:
+    elif r < 0.84:
         where = ["render", rng.choice(RENDER_KEYS)]
+    elif r < 0.92:
+        where = ["hook", rng.choice(["normalizeLink", "validateLink", "normalizeLink", "normalizeLinkText"])]
     else:
         where = ["highlight"]
     t = rng.randrange(len(threads))
     c = rng.randrange(len(threads[t]))
     if where[0] in ("render", "highlight") and threads[t][c][0] in ("parse", "parseInline"):
         threads[t][c][0] = "render" if threads[t][c][0] == "parse" else "renderInline"
+    if where[0] == "hook":
+        inl = "Inline" in threads[t][c][0]
+        threads[t][c][1] = threads[t][c][1] + (" [h](/hk 't') <http://h.k/x>" if inl else
+                                               "\n\n[h](/hk 't') ![i](/im) <http://h.k/x> [r]\n\n[r]: /rf\n")
     if where[0] == "highlight":
         threads[t][c][0] = "render"
         threads[t][c][1] = threads[t][c][1] + rng.choice(["\n```py x\ncode\n```\n", "\n> ~~~\n> q\n> ~~~\n"])
@@ -179,7 +305,12 @@ def gen(rng: random.Random, tier: str) -> dict:
     instr = rng.random() < (0.25 if tier == "quick" else 0.5)
     small = instr or rng.random() < 0.5
     threads = [[_gen_call(rng, small) for _ in range(1 if rng.random() < 0.75 else 2)] for _ in range(nt)]
-    rec = {"cfg": cfg, "start": _gen_start(rng), "threads": threads, "nested": None,
+    start = _gen_start(rng)
+    if start[0] == "aged":
+        for calls in threads:
+            for call in calls:
+                _aged_fragments(rng, call)
+    rec = {"cfg": cfg, "start": start, "threads": threads, "nested": None,
            "gran": "INSTRUCTION" if instr else "LINE", "switches": [], "sched": "none",
            "cold_text_cache": rng.random() < 0.15}
     if nt == 1 or rng.random() < 0.4:
@@ -188,13 +319,26 @@ def gen(rng: random.Random, tier: str) -> dict:
         k = rng.random()
         if k < 0.45:
             rec["sched"] = "K1"
-            spec = {"fu": rng.random()} if rng.random() < 0.5 else {"frac": rng.random(), "of": "t0"}
+            q = rng.random()
+            if q < 0.35:
+                spec = {"fu": rng.random()}
+            elif q < 0.5:
+                # right after (d=0), a little after, or just before a step at which thread 0 WRITES shared state
+                spec = {"ws": rng.random(), "d": rng.choice([0, 0, 0, 1, 2, 3, -1])}
+            elif q < 0.7:
+                # inside a function that some call of this run was seen writing shared state from
+                spec = {"wc": rng.random(), "loc": rng.random() < 0.5}
+            else:
+                spec = {"frac": rng.random(), "of": "t0"}
             rec["switches"] = [[spec, 0]]
         elif k < 0.65:
             rec["sched"] = "K2"
             rec["switches"] = [[{"frac": rng.random(), "of": "total"}, rng.randrange(4)] for _ in range(rng.randint(2, 4))]
-            if rng.random() < 0.5:
+            q = rng.random()
+            if q < 0.4:
                 rec["switches"][0] = [{"fu": rng.random()}, 0]
+            elif q < 0.6:
+                rec["switches"][0] = [{"wc": rng.random(), "loc": rng.random() < 0.5}, 0]
         elif k < 0.85:
             rec["sched"] = "K3"
             mean = rng.choice([5, 30, 100, 300, 1000])
@@ -211,9 +355,10 @@ def gen(rng: random.Random, tier: str) -> dict:
 
 
 # --------------------------------------------------------------------------- execution
-def _traced(fn, budget=5_000_000, record=False):
+def _traced(fn, budget=5_000_000, record=False, watch=None):
     """Run fn() on this thread as simulated thread 0 of a single-thread Sim (steps are counted)."""
     sim = sched.Sim(1, [], [budget], record_trace=record)
+    sim.watch = watch
     sched._cur = sim
     sched._tls.tid = 0
     try:
@@ -224,11 +369,28 @@ def _traced(fn, budget=5_000_000, record=False):
     return out, sim
 
 
-def _resolve(switches, t0_steps, total, fu_steps):
+def _resolve(switches, t0_steps, total, fu_steps, w0=(), wc_steps=(), wc_locs=None):
     out = []
     for spec, pick in switches:
         if "abs" in spec:
             at = spec["abs"]
+        elif "ws" in spec and w0:
+            at = w0[min(int(spec["ws"] * len(w0)), len(w0) - 1)] + 1 + spec.get("d", 0)
+        elif "wc" in spec and wc_steps:
+            if spec.get("loc") and wc_locs:
+                # location-uniform: every distinct line/instruction of the writer functions is equally likely,
+                # however often the call executes it
+                keys = sorted(wc_locs)
+                occ = wc_locs[keys[min(int(spec["wc"] * len(keys)), len(keys) - 1)]]
+                at = occ[int((spec["wc"] * 7919) % 1 * len(occ))]
+            else:
+                at = wc_steps[min(int(spec["wc"] * len(wc_steps)), len(wc_steps) - 1)]
+        elif "ws" in spec or "wc" in spec:
+            x = spec.get("ws", spec.get("wc"))
+            if fu_steps:
+                at = fu_steps[min(int(x * len(fu_steps)), len(fu_steps) - 1)]
+            else:
+                at = 1 + int(x * max(t0_steps - 1, 1))
         elif "fu" in spec:
             if fu_steps:
                 at = fu_steps[min(int(spec["fu"] * len(fu_steps)), len(fu_steps) - 1)]
@@ -257,11 +419,22 @@ def execute(rec: dict, res: RunResult) -> None:
     threads = rec["threads"]
     nested = rec.get("nested")
     n = len(threads)
+    if rec["start"][0] == "aged":
+        age = resolve_age(rec["start"][1])
+        rec = {**rec, "start": ["aged", age]}
+        res.events.append(["aged", age])
+        res.count("aged_start_runs")
+        if boundaries():
+            res.count("aged_to_a_discovered_capacity_limit")
 
     # ---- 1. solo outcomes (each call alone on a fresh, identically configured instance in the same start state)
     solo, solo_steps, nest_counts = [], [], {}
     fu_steps: list[int] = []
-    need_fu = any("fu" in s[0] for s in rec["switches"])
+    need_w = n > 1 and any(("ws" in s[0] or "wc" in s[0]) for s in rec["switches"])
+    need_fu = need_w or any("fu" in s[0] for s in rec["switches"])
+    w0: list[int] = []            # steps of thread 0's first call at which shared state changed
+    writer_codes: set[int] = set()
+    trace0: list = []
     for t, calls in enumerate(threads):
         solo.append([])
         solo_steps.append([])
@@ -276,7 +449,25 @@ def execute(rec: dict, res: RunResult) -> None:
                     return call_outcome(twin, m, d, ek)
                 finally:
                     _ctx.cur = None
+            fp0 = shared_state.fingerprint(twin) if need_w else None
             out, sim = _traced(run, record=record)
+            if need_w:
+                chains = shared_state.changed_chains(fp0, shared_state.fingerprint(twin))
+                if chains:
+                    # this call writes state that outlives it: run it once more on an identical twin with per-step
+                    # probes on exactly the changed places to learn WHEN (the writer's race windows) and WHERE
+                    res.count("solo_calls_that_write_shared_state")
+                    twin2 = build_shared(rec)
+                    wt = shared_state.Watch(twin2, chains)
+                    arm2 = _Arm(None, None, None)
+                    (_, sim2) = _traced(lambda: run(twin=twin2, arm=arm2), record=True, watch=wt)
+                    wt.poll(sim2.steps[0] + 1)
+                    ws = [w for w in wt.writes if 1 <= w <= len(sim2.trace)]
+                    writer_codes.update(sim2.trace[w - 1][0] for w in ws)
+                    if t == 0 and c == 0:
+                        w0 = ws
+            if record:
+                trace0 = sim.trace
             solo[t].append(out)
             solo_steps[t].append(sim.steps[0])
             nest_counts[(t, c)] = arm.count
@@ -301,7 +492,20 @@ def execute(rec: dict, res: RunResult) -> None:
 
     t0_steps = sum(solo_steps[0])
     total = sum(sum(x) for x in solo_steps)
-    switches = _resolve(rec["switches"], t0_steps, total, fu_steps) if n > 1 else []
+    wc_steps, wc_locs = [], {}
+    if need_w and writer_codes:
+        for i, loc in enumerate(trace0):
+            if loc[0] in writer_codes:
+                wc_steps.append(i + 1)
+                wc_locs.setdefault((sched.code_name(loc[0]), loc[1]), []).append(i + 1)
+        res.count("runs_with_write_directed_preemption")
+    if need_w:
+        res.events.append(["writes", len(w0), len(wc_steps)])
+        if w0 or wc_steps:
+            # write steps found on a fresh instance lie in the chain compilation, whose internal order follows the
+            # iteration order of a set of chain names: under another PYTHONHASHSEED the resolved step may differ
+            res.events.append(["hash_order_dependent_schedule"])
+    switches = _resolve(rec["switches"], t0_steps, total, fu_steps, w0, wc_steps, wc_locs) if n > 1 else []
     budgets = [10 * (sum(solo_steps[t]) + (inner_steps if nested and nested["thread"] == t else 0)) + 50_000
                for t in range(n)]
     res.events.append(["solo_steps", solo_steps, "fu", len(fu_steps), "arm_at", arm_at])
@@ -324,7 +528,7 @@ def execute(rec: dict, res: RunResult) -> None:
             finally:
                 sim.in_call[tid] = False
                 _ctx.cur = None
-            if results[tid][c][0] == "nonterm":
+            if results[tid][c][0] in ("nonterm", "deadlock"):
                 break
 
     if n == 1:
@@ -362,6 +566,8 @@ def execute(rec: dict, res: RunResult) -> None:
         res.reach("nested_sites", "|".join(map(str, nested["where"])) + ">" + nested["method"])
         if nested["where"][0] == "highlight":
             res.count("nested_from_highlight")
+        if nested["where"][0] == "hook":
+            res.count("nested_from_link_hook")
 
     # ---- 3. oracle
     site = rec["start"][0]
@@ -370,6 +576,11 @@ def execute(rec: dict, res: RunResult) -> None:
             got, exp = results[t][c], solo[t][c]
             if got is None:
                 continue
+            if got[0] == "deadlock" and exp[0] != "deadlock":
+                res.fail("DEADLOCK", f"thread {t} call {c} {threads[t][c][0]}({threads[t][c][1]!r}) can never return: "
+                                     f"{got[1]} (alone it returns {str(exp)[:200]})"
+                                     + (f"; nested re-entry fired={a.fired}" if a is not None else ""), site)
+                return
             if got[0] == "nonterm":
                 res.count("budget_aborts")
                 res.fail("NONTERMINATION", f"thread {t} call {c} {threads[t][c][0]}({threads[t][c][1]!r}) ran more than "
@@ -419,7 +630,8 @@ class C13(Engine):
                   "harness_supplied": ["caller threads' workloads", "re-entering pass-through plugin/render rules", "envs"],
                   "stub": [], "simulated": ["the thread scheduler: which thread runs after every library line/bytecode",
                                             "threading.Lock/RLock as seen by library modules (scheduler-aware; unused today)"]}
-    expected_probes = ["preemption_in_first_use_window", "overlapped_runs", "nested_reentries_fired",
+    expected_probes = ["aged_start_runs", "solo_calls_that_write_shared_state", "runs_with_write_directed_preemption",
+                       "preemption_in_first_use_window", "overlapped_runs", "nested_reentries_fired", "nested_from_link_hook",
                        "preemptions_fired_K1", "preemptions_fired_K2", "preemptions_fired_K3", "preemptions_fired_K4",
                        "runs_LINE", "runs_INSTRUCTION"]
     default_workers = 16
@@ -453,6 +665,9 @@ class C13(Engine):
         # another line of that function.  Everything else (steps, threads, results) must still agree.
         import re
         from ..core import digest
+        if any(e and e[0] == "hash_order_dependent_schedule" for e in res.events):
+            keep = [e for e in res.events if e and e[0] in ("results", "aged")]
+            return digest({"events": keep, "violation": res.violation["cls"] if res.violation else None})
         ev = re.sub(r"ruler\.py:__compile__:\d+", "ruler.py:__compile__:*", __import__("json").dumps(res.events))
         return digest({"events": ev, "violation": res.violation["cls"] if res.violation else None})
 
@@ -466,8 +681,12 @@ class C13(Engine):
 
     def shrink_steps(self, rec):
         # resolve the switch list to absolute steps first (uses the events of an execution)
-        if any("abs" not in s[0] for s in rec["switches"]) or (rec.get("nested") and "abs" not in rec["nested"]["inv"]):
+        if any("abs" not in s[0] for s in rec["switches"]) or (rec.get("nested") and "abs" not in rec["nested"]["inv"]) \
+                or (rec["start"][0] == "aged" and not isinstance(rec["start"][1], int)):
             res = self.execute(rec)
+            age = next((e[1] for e in res.events if e[0] == "aged"), None)
+            if age is not None:
+                rec = {**rec, "start": ["aged", age]}
             fired = next((e[1] for e in res.events if e[0] == "fired"), [])
             arm_at = next((e[5] for e in res.events if e[0] == "solo_steps"), None)
             cand = {**rec, "switches": [[{"abs": f[0]}, f[2]] for f in fired]}
@@ -501,6 +720,9 @@ class C13(Engine):
             yield {**rec, "cfg": dict(BASE_CFG)}
         if rec["start"][0] != "fresh":
             yield {**rec, "start": ["fresh"]}
+        if rec["start"][0] == "aged" and rec["start"][1] > 1:
+            yield {**rec, "start": ["aged", rec["start"][1] // 2]}
+            yield {**rec, "start": ["aged", rec["start"][1] - 1]}
         if rec.get("cold_text_cache"):
             yield {**rec, "cold_text_cache": False}
         # simpler documents: step indices shift, so re-sweep a single remaining switch over the new step range
